@@ -128,6 +128,56 @@ Definition read_reply (s : list N) : s_outcome :=
 
 (* bytes of the reply consumed before the outcome is known are irrelevant to the caller *)
 
+(* the length of the reply at the head of [s] as RFC 1928 section 6 frames it (VER REP RSV ATYP BND.ADDR BND.PORT),
+   and what follows it: after a successful CONNECT those following bytes are the first bytes of the
+   tunnelled connection, which the forwarder relays to the VPN client *)
+Definition reply_len (s : list N) : option N :=
+  match s with
+  | _ :: _ :: _ :: atyp :: r =>
+    if atyp =? SOCKS_ADDRESS_TYPE_IP_V4 then Some 10
+    else if atyp =? SOCKS_ADDRESS_TYPE_IP_V6 then Some 22
+    else if atyp =? SOCKS_ADDRESS_TYPE_DOMAIN_NAME then match r with l :: _ => Some (7 + l) | [] => None end
+    else None
+  | _ => None
+  end.
+
+(* read_reply together with the stream it leaves behind: the same reads, keeping what follows
+   BND.PORT when the reply is a success (theorem read_reply_full_outcome: same outcome as read_reply) *)
+Definition read_reply_full (s : list N) : s_outcome * list N :=
+  match s with
+  | ver :: code :: rsv :: atyp :: s4 =>
+    if negb (ver =? SOCKS_PROTOCOL_VERSION) then (OProtocol, []) else
+    if 8 <? code then (OProtocol, []) else
+    if negb (rsv =? SOCKS_RESERVED) then (OProtocol, []) else
+    let after_addr :=
+      if atyp =? SOCKS_ADDRESS_TYPE_IP_V4 then
+        match take_bytes 4 s4 with Some (_, r) => Ok r | None => Reject end
+      else if atyp =? SOCKS_ADDRESS_TYPE_IP_V6 then
+        match take_bytes 16 s4 with Some (_, r) => Ok r | None => Reject end
+      else if atyp =? SOCKS_ADDRESS_TYPE_DOMAIN_NAME then
+        match s4 with
+        | [] => Reject
+        | l :: s5 =>
+          match take_bytes l s5 with
+          | None => Reject
+          | Some (name, r) => if utf8_valid name then Ok r else Panic
+          end
+        end
+      else Panic in
+    match after_addr with
+    | Reject => (OIo, [])
+    | Panic | Fuel => (OProtocol, [])
+    | Ok r =>
+      match take_bytes 2 r with
+      | None => (OIo, [])
+      | Some (_, rest) => if code =? 0 then (OTcp, rest) else (OFailure code, [])
+      end
+    end
+  | _ => (read_reply s, [])
+  end.
+
+Definition read_reply_rest (s : list N) : s_outcome * list N := read_reply_full s.
+
 Definition after_auth (a : s_auth) (d : s_dest) (port : N) (s : list N) (em : list emitted)
   : list emitted * s_outcome :=
   match request_message 1 d port with
@@ -170,6 +220,20 @@ Definition connect (a : s_auth) (d : s_dest) (port : N) (server : list N)
       else if m =? SOCKS_AUTHENTICATION_CODE_NO_ACCEPTABLE then (em0, OAuth)
       else (em0, OProtocol)
     end
+  end.
+
+(* the stream handed to the forwarder after a successful CONNECT: the server's bytes after the
+   method selection, the authentication status when one was exchanged, and the reply *)
+Definition connect_rest (a : s_auth) (d : s_dest) (port : N) (server : list N) : list N :=
+  match connect a d port server with
+  | (_, OTcp) =>
+    match server with
+    | _ :: m :: s2 =>
+      let s := if m =? SOCKS_AUTHENTICATION_CODE_NO_AUTH then s2 else dropN 2 s2 in
+      snd (read_reply_rest s)
+    | _ => []
+    end
+  | _ => []
   end.
 
 (* UdpAssociation::send_to *)
